@@ -51,8 +51,10 @@ ORIGINS = ("centred", "zero", "negative", "far")
 def cases(tier, rng):
     q = tier == "quick"
     out = []
-    for i in range(10 if q else 56):
-        out.append({"kind": "helpers", "grids": 14 if q else 60})
+    for i in range(6 if q else 40):
+        out.append({"kind": "helpers", "grids": 10 if q else 60, "extents": False})
+    for i in range(4 if q else 28):
+        out.append({"kind": "helpers", "grids": 4 if q else 24, "extents": True})
     for i in range(4 if q else 28):
         out.append({"kind": "cfl", "n": 220 if q else 1500})
     for i in range(3 if q else 14):
@@ -152,10 +154,12 @@ def _helpers(case, r, rng):
                 r.violate("edges(axis) does not return the constructor's edge array", {"axis": a, "edges": edges[a].tolist()})
         r.branch(f"grid:{kind}")
         r.branch(f"origin:{origin}")
-        for a in range(3):
-            _snap_queries(r, rng, grid, a, E[a], kind, origin)
-            _interval_queries(r, rng, grid, a, E[a], kind, origin)
-        _extent_queries(r, rng, grid, E, kind, origin)
+        if case["extents"]:  # every distinct slice shape costs an XLA compilation inside the library
+            _extent_queries(r, rng, grid, E, kind, origin)
+        else:
+            for a in range(3):
+                _snap_queries(r, rng, grid, a, E[a], kind, origin)
+                _interval_queries(r, rng, grid, a, E[a], kind, origin)
         if r.sample is None:
             r.sample = {"grid_kind": kind, "origin": origin, "x_edges": [float(x) for x in E[0][:6]], "shape": list(grid.shape)}
     del gc
@@ -310,17 +314,13 @@ def _extent_queries(r, rng, grid, E, kind, origin):
         r.check_close("centers", np.asarray(grid.centers(a)), 0.5 * (E64[a][:-1] + E64[a][1:]), rt, witness=wit, sig=sig, atol=at)
         r.check_close("min_spacings", np.asarray(grid.min_spacings[a]), mins[a], rt, witness=wit, sig=sig, atol=at)
     r.check_close("min_spacing", np.asarray(grid.min_spacing), min(mins), rt, witness=wit, sig=sig, atol=8 * eps * max(float(np.max(np.abs(e))) for e in E64))
-    for _ in range(4):
+    for _ in range(2):
+        # slices from a small fixed family per cell count, so that XLA compilations are shared between grids
         sl = []
         for a in range(3):
-            lo = int(rng.integers(0, ns[a]))
-            hi = int(rng.integers(lo + 1, ns[a] + 1))
-            sl.append((lo, hi))
-        if rng.random() < 0.3:
-            sl = [(0, n) for n in ns]
-        if rng.random() < 0.3:
-            b = int(rng.integers(3))
-            sl[b] = (sl[b][0], sl[b][0] + 1)
+            n = ns[a]
+            fam = [(0, n), (0, 1), (n - 1, n), (n // 2, n), (min(1, n - 1), max(min(1, n - 1) + 1, n - 1))]
+            sl.append(fam[int(rng.integers(len(fam)))])
         sl = tuple(sl)
         w2 = {**wit, "slice": [list(s) for s in sl]}
         ats = [8 * eps * float(np.max(np.abs(E64[a]))) for a in range(3)]
